@@ -102,8 +102,9 @@ def run_program(spec, SG=None, entropy_log=None, fault_log=None):
             for n, s in enumerate(spec["steps"]):
                 k = s["k"]
                 if k == "rand":
-                    t = getattr(sg, s["fn"])(*s["shape"]) if s["fn"] in ("rand", "randn") else \
-                        sg.normal(s["loc"], s["scale"], *s["shape"]) if s["fn"] == "normal" else sg.randint(s["low"], s["high"], tuple(s["shape"]))
+                    kw = {"dtype": np.float64} if s.get("f64") else ({"dtype": np.float32} if s.get("f32") else {})
+                    t = getattr(sg, s["fn"])(*s["shape"], **kw) if s["fn"] in ("rand", "randn") else \
+                        sg.normal(s["loc"], s["scale"], *s["shape"], **kw) if s["fn"] == "normal" else sg.randint(s["low"], s["high"], tuple(s["shape"]))
                     H.add(f"{n}:{s['fn']}", t.data)
                     if t.data.dtype.kind == "f":
                         tensors.append(t)
@@ -245,6 +246,10 @@ def run_program(spec, SG=None, entropy_log=None, fault_log=None):
                         if w is not None:
                             h.add("gw", w.grad.data)
                     repeat(n, s, body)
+                elif k == "onehot":
+                    # class NAMES as labels: the column order must not depend on string hashing
+                    labels = s["labels"] if s.get("as") == "list" else np.array(s["labels"])
+                    H.add(f"{n}:onehot", np.asarray(SG.data.one_hot_encode(labels)))
                 elif k == "bn":
                     # BatchNorm layers (cumulative or exponential running statistics) fed alternately in training mode, then evaluated
                     layers = [nn.BatchNorm1d(s["c"], momentum=s["momentum"]) for _ in range(s["layers"])]
@@ -272,7 +277,8 @@ class ReproSim(Sim):
     SELFTEST_RUNS = 6
     PROBES = ["rand_family", "init_family", "layer_constructor", "dropout", "shuffled_split", "training_steps", "sumorder_float32", "generated_dag_program_float32", "gather_repeated_indices", "default_seed_on_scalar_leaf", "special_seed", "fresh_process_hashseed_0",
               "fresh_process_hashseed_1", "fresh_process_hashseed_random", "heap_displaced", "in_process_twice", "repetitions_without_reseed",
-              "padded_conv_or_pool_float32", "batch_norm_running_statistics", "interrupted_execution_between_repetitions", "in_process_four_times_with_gc"]
+              "padded_conv_or_pool_float32", "batch_norm_running_statistics", "interrupted_execution_between_repetitions", "in_process_four_times_with_gc",
+              "one_hot_of_class_names", "random_tensor_with_explicit_float64"]
     RULE = ("one run = one generated program over the random-consuming APIs + training steps + float32 multi-contribution graphs, executed over the "
             "matrix (twice in-process, 3 fresh interpreters with different PYTHONHASHSEED / heap layout, r repetitions of the deterministic part); "
             "distinct = multiset of APIs used x matrix; non-trivial = the program consumed randomness and was executed in a fresh process")
@@ -295,10 +301,16 @@ class ReproSim(Sim):
                 return [rng.choice([260, 300, 512])] + [rng.choice([257, 300])] + [1] * (rank - 2) if rank >= 2 else [rng.choice([70000, 100000])]
             return [rng.randint(lo, hi) for _ in range(rank)]
         for _ in range(rng.randint(3, 9)):
-            k = rng.choice(["rand", "rand", "init", "layer", "dropout", "split", "train", "sumorder", "sumorder", "dag", "dag", "gather", "leafroot", "conv", "conv", "bn"])
+            k = rng.choice(["rand", "rand", "init", "layer", "dropout", "split", "train", "sumorder", "sumorder", "dag", "dag", "gather", "leafroot", "conv", "conv", "bn", "onehot"])
             if k == "rand":
                 fn = rng.choice(["rand", "randn", "normal", "randint"])
                 s = {"k": "rand", "fn": fn, "shape": dims(1, 4, rng.randint(1, 3))}
+                if fn != "randint":
+                    u = rng.random()
+                    if u < 0.3:
+                        s["f64"] = True           # an explicit dtype: legal places for a separate generator
+                    elif u < 0.4:
+                        s["f32"] = True
                 if fn == "normal":
                     s.update(loc=rng.choice([0.0, 1.5]), scale=rng.choice([1.0, 0.2]))
                 if fn == "randint":
@@ -327,11 +339,21 @@ class ReproSim(Sim):
                 N, C, L = rng.randint(1, 2), rng.randint(1, 3), rng.randint(4, 7)
                 xs = [N, C, L, L] if two else [N, C, L]
                 ks = rng.randint(2, 3)
-                s = {"k": "conv", "op": op, "xs": xs, "x": [round(rng.uniform(-3, 3), 3) for _ in range(int(np.prod(xs)))], "ks": ks, "stride": rng.randint(1, 2),
+                xv = [round(rng.uniform(-3, 3), 3) for _ in range(int(np.prod(xs)))]
+                if rng.random() < 0.5:
+                    # flat regions (the zero background of an image, saturated pixels): ties inside pooling windows
+                    flat = rng.choice([0.0, 0.0, 1.0, -2.0])
+                    start = rng.randrange(len(xv))
+                    for q in range(start, min(len(xv), start + rng.randint(len(xv) // 3, len(xv)))):
+                        xv[q] = flat
+                s = {"k": "conv", "op": op, "xs": xs, "x": xv, "ks": ks, "stride": rng.randint(1, 2),
                      "pad": rng.randint(1, ks // 2) if not op.startswith("conv") else rng.randint(1, 2), "reps": rng.randint(2, 3)}
                 if op.startswith("conv"):
                     s["ws"] = [rng.randint(1, 3), C, ks, ks] if two else [rng.randint(1, 3), C, ks]
                     s["w"] = [round(rng.uniform(-2, 2), 3) for _ in range(int(np.prod(s["ws"])))]
+            elif k == "onehot":
+                names = rng.sample(["cat", "dog", "bird", "ant", "zebra", "Yak", "b", "a10", "a9", "cow", "emu", "fox"], rng.randint(2, 7))
+                s = {"k": "onehot", "labels": [rng.choice(names) for _ in range(rng.randint(2, 12))], "as": rng.choice(["array", "list"])}
             elif k == "bn":
                 s = {"k": "bn", "c": rng.randint(1, 4), "momentum": rng.choice([None, None, 0.1, 0.5]), "layers": rng.randint(1, 2), "steps": rng.randint(1, 3), "batch": rng.randint(2, 5)}
             elif k == "leafroot":
@@ -386,7 +408,10 @@ class ReproSim(Sim):
         for s in ev["steps"]:
             st.probes[{"rand": "rand_family", "init": "init_family", "layer": "layer_constructor", "dropout": "dropout", "split": "shuffled_split",
                        "train": "training_steps", "sumorder": "sumorder_float32", "dag": "generated_dag_program_float32", "gather": "gather_repeated_indices",
-                       "leafroot": "default_seed_on_scalar_leaf", "conv": "padded_conv_or_pool_float32", "bn": "batch_norm_running_statistics"}[s["k"]]] += 1
+                       "leafroot": "default_seed_on_scalar_leaf", "conv": "padded_conv_or_pool_float32", "bn": "batch_norm_running_statistics",
+                       "onehot": "one_hot_of_class_names"}[s["k"]]] += 1
+            if s.get("f64"):
+                st.probes["random_tensor_with_explicit_float64"] += 1
             if s.get("fault_between"):
                 st.probes["interrupted_execution_between_repetitions"] += 1
         if ev["seed"] in (0, 1, 2 ** 32 - 1):
